@@ -574,7 +574,9 @@ class RangeFolder(Folder):
             loc = t0[1]
             base = loc[1]
             kind = 'arg' if (base[0] == 'deref' and strip_ptr(base[1])[0] == 'param' and strip_ptr(base[1])[1] == 2) else 'buf'
-            if base[0] == 'deref' and strip_ptr(base[1])[0] not in ('param', 'load0', 'load') and not (strip_ptr(base[1])[0] == 'field' and strip_ptr(base[1])[1][0] != 'downcast'):
+            inner_t = strip_ptr(base[1]) if base[0] == 'deref' else None
+            is_split = inner_t is not None and inner_t[0] == 'field' and inner_t[1][0] == 'call' and '::split_at' in inner_t[1][2]
+            if is_split or (base[0] == 'deref' and inner_t[0] not in ('param', 'load0', 'load') and not (inner_t[0] == 'field' and inner_t[1][0] != 'downcast')):
                 # deref of another slice value (e.g. payload of get())
                 inner = self.slice_range(strip_ptr(base[1]))
                 kind, lo, hi = inner
@@ -592,6 +594,13 @@ class RangeFolder(Folder):
             kind, lo, hi = self.slice_range(c[3][0])
             lo2, hi2 = self.range_of(c[3][1], hi - lo)
             return kind, lo + lo2, lo + hi2
+        if t0[0] == 'field' and t0[1][0] == 'call' and (t0[1][2].endswith('::split_at') or t0[1][2].endswith('::split_at_mut')) and t0[2] in ('0', '1'):
+            c = t0[1]
+            kind, lo, hi = self.slice_range(c[3][0])
+            k = self.ev(c[3][1])
+            if not (0 <= k <= hi - lo):
+                raise Unfoldable('split_at(%d) of a %d-byte slice (would panic)' % (k, hi - lo))
+            return (kind, lo, lo + k) if t0[2] == '0' else (kind, lo + k, hi)
         raise Unfoldable('slice ' + fmt(t0)[:80])
 
     def range_of(self, r, length):
@@ -611,8 +620,8 @@ class RangeFolder(Folder):
             return 1 if 0 <= lo2 <= hi2 <= hi - lo else 0
         if t[0] == 'call' and t[2].endswith('::len') and t[3]:
             a = t[3][0]
-            s_ = fmt(a)
-            if 'get#' in s_ or '[' in s_:
+            if any(x[0] == 'call' and (x[2].endswith('::get') or '::split_at' in x[2]) for x in subterms(a)) or \
+                    any(x[0] == 'loc' and any(pp[0] == 'idx' for pp in x[2]) for x in subterms(a)):
                 kind, lo, hi = self.slice_range(a)
                 return hi - lo
         return Folder.ev(self, t)
